@@ -222,6 +222,15 @@ fn run_case_inner(case: &Case, rep: &mut Report) -> Option<(String, String)> {
                         let mut c = chars.clone();
                         c[pos] = c[pos].to_ascii_uppercase();
                         let s = String::from_utf8(c).unwrap();
+                        if !s.bytes().any(|b| b.is_ascii_lowercase()) {
+                            // the address has this one letter only: the flipped string is all upper case, not mixed
+                            // case (another spelling; whatever validation accepts it returns unchanged, see above)
+                            match api.addr_validate(&s) {
+                                Ok(a) if a.as_str() != s => fail!("validate-alters-accepted-address", "{:?} prefix {:?}: validate({}) = {}", v, prefix, s, a),
+                                _ => rep.bump("c18/observation/single_letter_address_upper_cased"),
+                            }
+                            continue;
+                        }
                         if api.addr_validate(&s).is_ok() || api.addr_canonicalize(&s).is_ok() {
                             fail!("accepts-mixed-case", "{:?} prefix {:?}: accepted {} (char {} upper-cased)", v, prefix, s, pos);
                         }
